@@ -5,7 +5,7 @@ import os
 from hypothesis import strategies as st
 from natsort import natsorted
 
-from lib import gen_db, simreads, refmodels, record
+from lib import gen_db, simreads, refmodels, record, truth
 from lib.runner import Result, V, scratch
 
 ID = "C01"
@@ -16,6 +16,7 @@ RULE = ("case = generated database spec (strand, pseudogene, alignment gaps, var
         "simulated from *1/*1; non-trivial = at least one planted copy carries a variant or a non-default structure, and the "
         "case digest (database + sample) is new")
 ASSUMPTIONS = [
+    "reads carry the variants of the database's RefSeq-level description converted to genome coordinates by the harness' own code (lib/truth.py), not the variants as aldy loaded them",
     "the simulator is a perfect aligner with exactly uniform depth (rl/step per copy); first two copies are complete haplotypes, extra copies gene-only (aldy's documented structure model)",
     "clauses 2-3 are judged only when the planted structure is among the reference enumerator's optimal structures for the measured region depths (the property's own condition)",
     "solver = CBC",
@@ -90,12 +91,13 @@ def _run_generated(case):
 
     d = scratch()
     db = os.path.join(d, "ga.yml")
+    meta_ = None
     if case.get("kind") == "shipped":
         import shutil
 
         shutil.copyfile(_shipped_db(case["gene"]), db)
     else:
-        gen_db.write(case["db"], db)
+        meta_ = gen_db.write(case["db"], db)
     build = case["build"]
     gene = Gene(db, genome=build)
     copies = plan(gene, case)
@@ -105,7 +107,21 @@ def _run_generated(case):
     rl = case["rl"]
     step = max(1, rl // case["depth"])
     bam, pbam = os.path.join(d, "s.bam"), os.path.join(d, "p.bam")
-    sim.sample(bam, [(c, m) for c, m, _, _ in copies], rl, step)
+    # reads are simulated from the database's RefSeq-level truth (own coordinate conversion), not from the variants as aldy
+    # loaded them; for shipped genes (no spec) the loaded variants are used
+    sim_copies = []
+    truth_differs = False
+    for c, m, maj, nm in copies:
+        tv = None
+        if meta_ is not None and nm != DEL:
+            tv = truth.allele_variants(case["db"], meta_, build, nm)
+        if tv is not None:
+            if {tuple(x) for x in m} != tv:
+                truth_differs = True
+            sim_copies.append((c, frozenset(tv)))
+        else:
+            sim_copies.append((c, m))
+    sim.sample(bam, sim_copies, rl, step)
     sim.sample(pbam, [("1", frozenset())] * 2, rl, step)
 
     planted_major = collections.Counter(maj for _, _, maj, _ in copies if maj is not None)
@@ -128,6 +144,8 @@ def _run_generated(case):
     if len(struct) > 2:
         skinds.add("dup")
     labels += [f"sv:{k}" for k in skinds]
+    if truth_differs:
+        labels.append("loaded-variants-differ-from-database-truth")
     nontrivial = bool(allv) or skinds != {"default"}
     names = [nm for _, _, _, nm in copies]
     info = {"planted": names, "structure": struct}
